@@ -398,5 +398,9 @@ func gen(r *vh.Rand, tier string) []string {
 	for i := 0; i < nEng; i++ {
 		out = append(out, genEng(r, thorough))
 	}
+	// grpc gun: the target goes away after <downat> calls while the startup schedule still creates instances
+	for i := 0; i < nEng/15; i++ {
+		out = append(out, fmt.Sprintf("grpc %d %d %d %s", r.Range(0, 2), r.PickInt([]int{20, 30}), r.PickInt([]int{-1, 0, 1, 3, 10}), r.Pick([]string{"-", "-", "all", "error"})))
+	}
 	return out
 }
